@@ -14,6 +14,11 @@
     gene/feature.py, gene/gene.py, gene/collections.py   constructors: span, location, which members reach
                        `digest_object` (chromosome coordinates vs the chunk-relative location) and `to_dict`
     io/parser.py       the two parents
+    alternative constructors (last section): `from_chunk_relative_location` of feature.py / cds.py / transcript.py,
+                       `to_dict` → `from_dict(vals, parent)`, `liftover_to_parent_or_seq_chunk_parent`
+                       (interval.py:434-463), `incorporate_variants` of the three leaf classes with one
+                       length-preserving `VariantInterval` (variants.py `lift_over_location`,
+                       `parent_with_alternative_sequence`)
 
   The chromosome-level machinery is NOT re-modelled: `Model.CDS` (C05) is the CDS on a chromosome,
   `Model.chunkDown` / `Model.liftOnce` (C04) are the two directions of the chunk lift.
@@ -31,7 +36,7 @@ import BioCantor.Model.Algebra
 import BioCantor.Spec.Chunk
 namespace BioCantor.Model.Chunk
 open BioCantor BioCantor.Model
-open BioCantor.Spec.Chunk (FeatD CdsD TxD GeneD FicD AcD Desc)
+open BioCantor.Spec.Chunk (FeatD CdsD TxD GeneD FicD AcD Desc Via)
 
 /-! ### the two parents -/
 
@@ -423,5 +428,234 @@ def codingTwin (d : Desc) (letters : List Char) (ch : Chunk) : R ChunkCDS := do
   | .cds x => mkChunkCDS x ch
   | .tx t => if t.cds.isEmpty then throw .NoncodingTranscript else mkChunkCDS t.cdsD ch
   | _ => throw .NoncodingTranscript
+
+/-! ### the cached-codons path of `extract_sequence`
+
+  `extract_sequence` (cds.py:442-467) joins the sequences of the cached chunk-relative codons when
+  `chunk_relative_codon_locations` was evaluated before (and is non-empty), and slices the prepared location
+  otherwise.  The model has no state: the call history is an argument. -/
+
+/-- `extract_sequence()` after `chunk_relative_codon_locations` was evaluated on the same object -/
+def extractSequenceChunkAfterCodons (k : ChunkCDS) : R (List Char) := do
+  let cods ← chunkRelativeCodonLocations k
+  if cods.isEmpty then extractSequenceChunk k
+  else do
+    let ss ← cods.mapM (locationSeq k.letters)
+    pure ss.flatten
+
+def translateChunkAfterCodons (k : ChunkCDS) : R (List Char) := do
+  let seq ← extractSequenceChunkAfterCodons k
+  translateLoop false 0 true 0 (chunks3 (upperStr seq))
+
+/-- `scan_chromosome_codon_locations(lo, hi)` of a chunk-built CDS: the chunk branch is not taken -/
+def scanChromosomeCodonLocationsChunk (k : ChunkCDS) (lo hi : Int) : R (List Location) :=
+  scanChromosomeCodonLocations k.base (some ⟨some lo, some hi, false⟩)
+
+/-! ### alternative constructors
+
+  Each of them ends in the ORDINARY constructor on the chunk parent, with chromosome coordinates it obtained in its
+  own way: by lifting a chunk-relative location (`from_chunk_relative_location`, reached again by
+  `incorporate_variants`) or by unpacking a dictionary (`from_dict`, reached again by
+  `liftover_to_parent_or_seq_chunk_parent`). -/
+
+/-- `location.lift_over_to_first_ancestor_of_type("chromosome")` behind the guard
+    `if not location.has_ancestor_of_type(SEQUENCE_CHUNK): raise NoSuchAncestorException` (an EmptyLocation has no
+    parent at all) -/
+def liftToChromosome (ch : Chunk) (l : Location) : R Location :=
+  if l == .empty then throw .NoSuchAncestor else liftUp ch l
+
+/-- `FeatureInterval.from_chunk_relative_location` (feature.py:233-276): blocks of the lifted location, and
+    `strand=location.strand` — the strand of the CHUNK-RELATIVE location (wrong chromosome strand on a chunk of the
+    minus strand: F-C07e) -/
+def featFromChunkRelative (ch : Chunk) (l : Location) (depth : Nat) : R Node := do
+  let chrom ← liftToChromosome ch l
+  let st ← locStrand l
+  mkFeat ⟨st, locBlocks chrom⟩ (.chunk ch) depth
+
+/-- `cds_starts`, `cds_ends`, `frames_or_phases` as three parallel lists: the constructor refuses lists of different
+    lengths -/
+def zipFrames (bs : List Blk) (fr : List Nat) : R (List (Blk × Nat)) :=
+  if bs.length ≠ fr.length then throw .MismatchedFrame else pure (bs.zip fr)
+
+/-- `CDSInterval.from_chunk_relative_location(location, cds_frames)` (cds.py:264-304): blocks AND strand of the
+    lifted location, the frames as given -/
+def cdsDescFromChunkRelative (ch : Chunk) (l : Location) (frames : List Nat) : R CdsD := do
+  let chrom ← liftToChromosome ch l
+  let st ← locStrand chrom
+  let ex ← zipFrames (locBlocks chrom) frames
+  pure ⟨st, ex⟩
+
+def cdsFromChunkRelative (ch : Chunk) (l : Location) (frames : List Nat) : R ChunkCDS := do
+  let x ← cdsDescFromChunkRelative ch l frames
+  mkChunkCDS x ch
+
+def frameNat (f : CDSFrame) : Nat := f.value.toNat
+
+/-- `TranscriptInterval.from_chunk_relative_location(location, cds)` (transcript.py:418-480): exon blocks and strand
+    of the lifted location; CDS blocks from the lifted `cds.chunk_relative_location`, frames from `cds.frames` -/
+def txDescFromChunkRelative (ch : Chunk) (l : Location) (cds : Option ChunkCDS) : R TxD := do
+  let chrom ← liftToChromosome ch l
+  let cdsPart ← (match cds with
+    | none => pure []
+    | some k => do
+      let cchrom ← liftToChromosome ch k.location
+      zipFrames (locBlocks cchrom) (k.base.frames.map frameNat))
+  let st ← locStrand chrom
+  pure ⟨st, locBlocks chrom, cdsPart⟩
+
+/-- what the harness hands to the chunk-relative constructors: the chunk-relative location(s) of a description
+    lying inside the chunk (there, `initialize_location` is plain coordinate arithmetic) -/
+def handedLocation (bs : List Blk) (st : Strand) (ch : Chunk) : R Location := initializeLocation bs st (.chunk ch)
+
+/-- the description an interval built by `from_chunk_relative_location` has (feature / transcript / CDS) -/
+def descFromChunkRelative (d : Desc) (ch : Chunk) : R Desc :=
+  match d with
+  | .feat f => do
+      let l ← handedLocation f.blocks f.st ch
+      let chrom ← liftToChromosome ch l
+      let st ← locStrand l
+      pure (.feat ⟨st, locBlocks chrom⟩)
+  | .cds x => do
+      let l ← handedLocation (x.exons.map (·.1)) x.st ch
+      let x' ← cdsDescFromChunkRelative ch l (x.exons.map (·.2))
+      pure (.cds x')
+  | .tx t => do
+      let l ← handedLocation t.exons t.st ch
+      let cds ← (if t.cds.isEmpty then pure none else do
+        let cl ← handedLocation (t.cds.map (·.1)) t.st ch
+        let k ← cdsFromChunkRelative ch cl (t.cds.map (·.2))
+        pure (some k))
+      let t' ← txDescFromChunkRelative ch l cds
+      pure (.tx t')
+  | _ => throw .NotImplemented
+
+/-! #### `to_dict()` → `from_dict(vals, parent_or_seq_chunk_parent)`
+
+  `to_dict()` exports the constructor's own coordinate lists (`_genomic_starts`, `_genomic_ends`, strand name, frame
+  names; children as nested dictionaries; an AnnotationCollection also its `start` / `end`), `from_dict` hands them
+  back to the ordinary constructor together with the NEW parent. -/
+
+def reDictFeat (f : FeatD) : FeatD := ⟨f.st, (f.blocks.map (·.1)).zip (f.blocks.map (·.2))⟩
+def reDictCds (ex : List (Blk × Nat)) : List (Blk × Nat) :=
+  ((ex.map (·.1.1)).zip (ex.map (·.1.2))).zip (ex.map (·.2))
+def reDictCdsD (x : CdsD) : CdsD := ⟨x.st, reDictCds x.exons⟩
+/-- `cds_starts=vals["cds_starts"] if vals["cds_starts"] else None` -/
+def reDictTx (t : TxD) : TxD :=
+  ⟨t.st, (t.exons.map (·.1)).zip (t.exons.map (·.2)), if t.cds.isEmpty then [] else reDictCds t.cds⟩
+def reDictGene (g : GeneD) : GeneD := ⟨g.txs.map reDictTx⟩
+def reDictFic (q : FicD) : FicD := ⟨q.feats.map reDictFeat⟩
+
+/-- the description `from_dict(o.to_dict(), …)` hands to the constructor; `root` = the exported object's own node
+    (an AnnotationCollection exports the bounds it HAS, given or inferred) -/
+def reDict (d : Desc) (root : Option Node) : Desc :=
+  match d with
+  | .feat f => .feat (reDictFeat f)
+  | .tx t => .tx (reDictTx t)
+  | .cds x => .cds (reDictCdsD x)
+  | .gene g => .gene (reDictGene g)
+  | .fic q => .fic (reDictFic q)
+  | .ac a => .ac ⟨a.genes.map reDictGene, a.fics.map reDictFic,
+      match root with | some n => some (n.start, n.«end») | none => a.bounds⟩
+
+/-- `Cls.from_dict(<object built on src>.to_dict(), parent_or_seq_chunk_parent=p)` -/
+def viaDict (d : Desc) (src p : Par) : R (List Node) := do
+  let a ← buildNodes d src
+  buildNodes (reDict d a.head?) p
+
+/-- `liftover_to_parent_or_seq_chunk_parent(p)` (interval.py:434-463): the two parents' chromosome ancestors are
+    compared except for location (and sequence) — equal here by construction: both come from the same chromosome
+    name — then `self.from_dict(self.to_dict(), p)` -/
+def viaLift (d : Desc) (src p : Par) : R (List Node) := viaDict d src p
+
+/-! #### `incorporate_variants(<one length-preserving VariantInterval>)` on a chunk-built leaf interval -/
+
+/-- `VariantInterval.parent_with_alternative_sequence` for a variant `[p, p+1) ↦ letter` built on the chunk: the
+    letter replaces `chunk_relative_location.start … end` of the chunk's letters AS IT STANDS (no complement on a
+    minus-strand chunk), and `seq_chunk_to_parent(alt, id, start, start + len(alt))` is called WITHOUT the chunk's
+    strand: the new chunk always lies on the plus strand (F-C07f) -/
+def variantChunk (ch : Chunk) (p : Nat) (letter : Char) : R Chunk := do
+  let vl ← initializeLocation [(p, p + 1)] .plus (.chunk ch)
+  match vl with
+  | .single b _ =>
+      let alt := ch.letters.take b.1 ++ [letter] ++ ch.letters.drop b.2
+      pure ⟨(ch.w.1, ch.w.1 + alt.length), .plus, alt⟩
+  | _ => throw .NullSequence            -- no base of the variant in the chunk: `has_sequence` is False
+
+/-- `VariantInterval.lift_over_location(location)` for `len(variant) == len(alt)` (variants.py:254-268): up to the
+    chromosome, then `liftover_location_to_seq_chunk_parent(location, parent_with_alternative_sequence)` -/
+def variantLiftLocation (ch ch' : Chunk) (l : Location) : R Location :=
+  if l == .empty then pure .empty
+  else do
+    let chrom ← liftUp ch l
+    chunkDown chrom ch'.w ch'.wst
+
+/-- the description `incorporate_variants` re-builds (feature.py:482-505, cds.py:1044-1063, transcript.py:864-900),
+    on the variant's chunk `ch'`: `new_loc`, `is_empty` ⇒ EmptyLocationException, then `from_chunk_relative_location`
+    (the interval is chunk-relative: `_location` is not empty) -/
+def descIncorporateSnv (d : Desc) (ch ch' : Chunk) : R Desc :=
+  match d with
+  | .feat f => do
+      let l ← initializeLocation f.blocks f.st (.chunk ch)
+      let nl ← variantLiftLocation ch ch' l
+      if nl == .empty then throw .EmptyLocation
+      let chrom ← liftToChromosome ch' nl
+      let st ← locStrand nl
+      pure (.feat ⟨st, locBlocks chrom⟩)
+  | .cds x => do
+      let k ← mkChunkCDS x ch
+      let nl ← variantLiftLocation ch ch' k.location
+      if nl == .empty then throw .EmptyLocation
+      let f0 ← (match k.base.frames.head? with | some f => pure f | none => throw .MismatchedFrame)
+      let fr ← constructFramesFromLocation nl f0         -- `self.frames[0]`: the frame of the FIRST block in plus order
+      let x' ← cdsDescFromChunkRelative ch' nl (fr.map frameNat)
+      pure (.cds x')
+  | .tx t => do
+      let _ ← mkTx t (.chunk ch) 0
+      let cds ← (if t.cds.isEmpty then pure none else do
+        let k ← mkChunkCDS t.cdsD ch
+        let nl ← variantLiftLocation ch ch' k.location
+        if nl == .empty then throw .EmptyLocation
+        let f0 ← (match k.base.frames.head? with | some f => pure f | none => throw .MismatchedFrame)
+        let fr ← constructFramesFromLocation nl f0
+        let k' ← cdsFromChunkRelative ch' nl (fr.map frameNat)
+        pure (some k'))
+      let l ← initializeLocation t.exons t.st (.chunk ch)
+      let nl ← variantLiftLocation ch ch' l
+      if nl == .empty then throw .EmptyLocation
+      let t' ← txDescFromChunkRelative ch' nl cds
+      pure (.tx t')
+  | _ => throw .NotImplemented
+
+/-- `from_dict` hands the exported identifier back to the constructor (`guid=vals["…_guid"]`) for features,
+    transcripts, genes and feature collections: their identifier is the SOURCE object's; a CDS and an
+    AnnotationCollection digest again -/
+def copyGuids : List Node → List Node → List Node
+  | s :: ss, b :: bs =>
+    (if b.tag = 'F' ∨ b.tag = 'T' ∨ b.tag = 'G' ∨ b.tag = 'Q' then { b with guidKey := s.guidKey } else b) :: copyGuids ss bs
+  | _, bs => bs
+
+/-- the chunk-built twin through an alternative constructor: its nodes, the description the ordinary constructor
+    finally received and the chunk parent it received it on.  `other` = source of `relift`: the chunk `[0, L)` of the
+    opposite strand; `snv`: the object lived on `before` (the chunk of the chromosome that differs at `p`). -/
+def viaNodes (v : Via) (d : Desc) (letters : List Char) (ch before other : Chunk) : R (List Node × Desc × Chunk) :=
+  match v with
+  | .fcrl => do
+      let d' ← descFromChunkRelative d ch
+      let b ← buildNodes d' (.chunk ch)
+      pure (b, d', ch)
+  | .dict | .lift => do
+      let a ← buildNodes d (.whole letters)
+      let b ← buildNodes (reDict d a.head?) (.chunk ch)
+      pure (copyGuids a b, reDict d a.head?, ch)
+  | .relift => do
+      let a ← buildNodes d (.chunk other)
+      let b ← buildNodes (reDict d a.head?) (.chunk ch)
+      pure (copyGuids a b, reDict d a.head?, ch)
+  | .snv p => do
+      let letter ← (match letters[p]? with | some c => pure c | none => throw .InvalidPosition)
+      let ch' ← variantChunk before p letter
+      let d' ← descIncorporateSnv d before ch'
+      let b ← buildNodes d' (.chunk ch')
+      pure (b, d', ch')
 
 end BioCantor.Model.Chunk
